@@ -7,6 +7,7 @@ CONSTANTS
 INVARIANT ClausesHold
 INVARIANT RepairedHolds
 INVARIANT KFNarrow
+INVARIANT ExemptHolds
 INVARIANT FeedBackDefinitional
 INVARIANT FeedBackBetween
 INVARIANT Emit
